@@ -217,3 +217,64 @@ func runScopes(c *core.Ctx, st pred.Style, table []pred.Row) {
 	}
 	c.Shape("scopes", nb, len(want(ua)) > 0, len(want(ub)) > 0)
 }
+
+// runInlineKeys: a string that spells a number is the primary key, as an inline condition and as a Where argument;
+// also when the number does not fit an int (it then names no row; it never becomes raw SQL)
+func runInlineKeys(c *core.Ctx, table []pred.Row) {
+	r := c.R
+	if len(table) < 2 {
+		return
+	}
+	load(table)
+	keys := []string{fmt.Sprint(table[r.Intn(len(table))].ID), "99999999999999999999", "-99999999999999999999", "0", "18446744073709551616"}
+	key := core.Pick(r, keys)
+	var want []int64
+	for _, row := range table {
+		if fmt.Sprint(row.ID) == key {
+			want = append(want, row.ID)
+		}
+	}
+	root := H.DB.Session(&gorm.Session{})
+	var problems []string
+	form := r.Intn(4)
+	desc := ""
+	var got []int64
+	var err error
+	switch form {
+	case 0:
+		var out []pred.Row
+		desc = fmt.Sprintf("db.Find(&rows, %q)", key)
+		err = root.Find(&out, key).Error
+		for _, o := range out {
+			got = append(got, o.ID)
+		}
+	case 1:
+		desc = fmt.Sprintf("db.Model(&Row{}).Where(%q).Pluck(id)", key)
+		err = root.Model(&pred.Row{}).Where(key).Pluck("id", &got).Error
+	case 2:
+		desc = fmt.Sprintf("db.Delete(&Row{}, %q)", key)
+		err = root.Delete(&pred.Row{}, key).Error
+		left := map[int64]bool{}
+		for _, id := range vdb.Ints(H.SQL, "SELECT id FROM rws") {
+			left[id] = true
+		}
+		for _, row := range table {
+			if !left[row.ID] {
+				got = append(got, row.ID)
+			}
+		}
+	default:
+		desc = fmt.Sprintf("db.Model(&Row{}).Where(%q).Update(mark)", key)
+		err = root.Model(&pred.Row{}).Where(key).Update("mark", markVal).Error
+		got = vdb.Ints(H.SQL, "SELECT id FROM rws WHERE mark = ? ORDER BY id", markVal)
+	}
+	c.Inc("inline_key_strings")
+	if err != nil {
+		problems = append(problems, "error: "+err.Error())
+	} else if !pred.IDsEqual(pred.SortIDs(got), want) {
+		problems = append(problems, fmt.Sprintf("selected ids %v, the key %s names %v", pred.SortIDs(got), key, want))
+	}
+	if len(problems) > 0 {
+		c.Violation("inline-key-string", map[string]interface{}{"chain": desc, "problems": problems})
+	}
+}
